@@ -34,8 +34,11 @@ CTX = None
 # ----------------------------------------------------------------------------------------------- series
 @st.composite
 def series_params(draw):
-    p = draw(gen.tissue_params(kinds=("voronoi", "moebius"), max_cells=16, min_cells=6, allow_sub=False, n_int_max=6,
-                               n_int_min=1, pose=False, labels=False))
+    p = draw(gen.tissue_params(kinds=("voronoi", "brick", "moebius", "voronoi", "brick", "moebius", "voronoi"),
+                               max_cells=16, min_cells=6, allow_sub=False, n_int_max=6, n_int_min=1, pose=False,
+                               labels=False))
+    if p["kind"] == "brick":
+        p["nx"], p["ny"] = min(p["nx"], 4), min(p["ny"], 3)
     p["n_frames"] = draw(st.integers(2, 4))
     p["steps"] = [{"kind": "random", "frac": draw(st.sampled_from([0.1, 0.3, 0.5])),
                    "seed": draw(st.integers(0, 2 ** 32 - 1))} for _ in range(p["n_frames"] - 1)]
@@ -44,6 +47,10 @@ def series_params(draw):
     sh = draw(st.sampled_from([0.0, 0.0, 15000.0, -21000.0]))
     p["pose"] = {"rot_mode": "uniform", "angle": draw(st.integers(0, 63)) * 0.1, "shift": [sh, 0.3 * sh],
                  "logscale": draw(st.sampled_from([0.0, 0.0, 2.0])), "reflect": False}
+    if p["kind"] == "brick":
+        # first frame with exactly straight-through T-junctions (opening exactly pi): the default limit flags them,
+        # an unlimited build does not; later frames are displaced and generic
+        p["pose"] = {"rot_mode": "zero", "angle": 0.0, "shift": [0.0, 0.0], "logscale": 0.0, "reflect": False}
     return p
 
 
@@ -521,6 +528,22 @@ class ForSysMachine(RuleBasedStateMachine):
         self._do(step)
 
     @rule(b=BUILD, s=SOLVE)
+    def unlimited_then_default_limit(self, b, s):
+        """The same frame built and solved without angle limit and then with the documented default one (which flags
+        exactly straight-through junctions): what the second solve reports must not remember the first."""
+        if self.h is None or self.h.dead:
+            return
+        t = 0 if self.h.p.get("kind") == "brick" else b["t"] % self.h.n      # frame 0 of a brick series is the exact one
+        for lim in ("inf", "default"):
+            self._do(dict(b, t=t, limit=lim))
+            if self.h.dead or not self.h.last_build:
+                return
+            pool = sorted(self.h.last_build)
+            self._do(dict(s, t=pool.index(t) if t in pool else 0, method=None))
+            if self.h.dead:
+                return
+
+    @rule(b=BUILD, s=SOLVE)
     def new_solver_object_then_build_and_solve(self, b, s):
         """ForSys constructed again over the same, already solved, Frame objects; then a build and a solve."""
         if self.h is None or self.h.dead or not self.h.last_solve:
@@ -560,6 +583,20 @@ class ForSysMachine(RuleBasedStateMachine):
                     self._do(b)
                 if not h.dead:
                     self._do(dict(h.last_solve[t], op="solve", t=sorted(h.last_build).index(t)))
+        # (a2) series whose first frame has exactly straight-through junctions: unlimited build and solve, then the
+        # default limit (flags them) and solve again
+        if h.p.get("kind") == "brick" and not h.dead:
+            b0 = {"op": "build", "t": 0, "fit": "dlite", "ignore_four": False, "omit": 0}
+            s0 = {"op": "solve", "method": None, "b_matrix": None, "allow_negatives": True, "adim": False, "x0": "none",
+                  "omit": False}
+            for lim in ("inf", "default"):
+                self._do(dict(b0, limit=lim))
+                if h.dead:
+                    return
+                self._do(dict(s0, t=sorted(h.last_build).index(0)))
+                if h.dead:
+                    return
+            CTX.count("closing:unlimited-then-default-on-exact-T-junctions")
         # (b) re-solve every solved frame with the other right-hand side and redo its pressure step
         for t in sorted(h.last_solve):
             if h.dead:
@@ -587,7 +624,7 @@ class ForSysMachine(RuleBasedStateMachine):
             CTX.count("solves", nsolve)
             if h.revisit and nsolve >= 2:
                 CTX.mark_nontrivial(h.params())
-                CTX.sample({"series": {k: h.p[k] for k in ("kind", "n_cells", "n_frames")},
+                CTX.sample({"series": {k: h.p.get(k) for k in ("kind", "n_cells", "nx", "ny", "n_frames")},
                             "steps": [{k: v for k, v in s.items()} for s in h.steps]}, cap=6)
 
 
